@@ -1,19 +1,19 @@
 SPECIFICATION Spec
 CONSTANTS
-  Models <- ModelsBC
-  Caps <- CapsAll
-  GMasks <- FewGroups
-  SMasks <- SiteMasks
-  JMasks <- NoSites
-  TMasks <- NoSites
-  AMasks <- NoSites
-  FlagSets <- NoFlags
+  Models <- ModelsD
+  Caps <- CapsD
+  GMasks <- EdgeMasks
+  SMasks <- EdgeMasks
+  JMasks <- EdgeMasks
+  TMasks <- EdgeMasks
+  AMasks <- EdgeMasks
+  FlagSets <- AllFlags
   Statics <- OnlyTrue
-  CatMasks <- TwoCats
+  CatMasks <- FullCat
   QPos <- Q0
-  Status0 <- St01
+  Status0 <- St0
   InitMode = "all"
-  Ops <- CallOps
+  Ops <- UpdateOnly
   MaxOps = 1
   Bug = "none"
 INVARIANT TypeOK
